@@ -1,8 +1,288 @@
-/- C09 — placeholder until the schema proofs are merged (not registered in MANIFEST.json). -/
+/-
+  C09 — a typed builder accepts exactly conforming data, and reports everything else by an error.
+
+  "A typed builder, at type level or at representation level, accepts a data-model tree exactly when
+  that tree conforms to the schema type: required fields present, no unknown fields, no repeated field
+  or map key, value kinds right, union discriminants and kinds known and unambiguous, enum members
+  valid, null only where nullable and absence only where optional.  Every non-conforming input is
+  reported by an error, never by a panic and never by silently producing a node that violates the
+  type."
+
+  Property theorems only; helper lemmas are in `Lemmas/Schema*.lean`.
+
+  Vocabulary (all in `Model/Schema.lean`):
+    * `build e lvl ty nul cur d` — the builder of type `ty` at level `lvl` (type | repr) of engine `e`,
+      assembling into a slot that is nullable iff `nul` and holds `cur`, fed the tree `d`;
+      `ofType e ty d = build e .type ty false none d`, `ofRepr e ty d = build e .repr ty false none d`;
+    * `Engine.ideal` — every quirk flag off;
+    * `conforms ty nul v` — type-level conformance of a typed value, `conformsRepr ty nul d` —
+      representation-level conformance of a data-model tree; both defined without the builders;
+    * `normalize ty v` — struct entries in declaration order, unset optional fields explicit;
+    * `Ty.wf` — the schema-level unambiguity (distinct field names / representation keys, distinct
+      member names / discriminants / kinds, distinct enum members, stringjoin fields stringy ...).
+  `Ty.wf` is needed wherever acceptance is compared with conformance: see `wf_needed_*`.
+-/
 import IpldModel.Model.Schema
+import IpldModel.Lemmas.SchemaNoPanic
+import IpldModel.Lemmas.SchemaConf
+import IpldModel.Lemmas.SchemaType
+import IpldModel.Lemmas.SchemaRepr
+import IpldModel.Lemmas.SchemaMono
+import IpldModel.Lemmas.SchemaNorm
 namespace Ipld.Props.C09
 open Ipld Ipld.Schema
 
-theorem ideal_has_no_quirk : (Engine.ideal.flags.all fun f => !f.2.1) = true := by decide
+/-! ## C09-1 — never a panic -/
+
+/-- **ideal_never_panics.**  The ideal builder, at either level, for every type (well-formed or not),
+    every slot (nullable or not, holding something or not) and every input tree, never panics. -/
+theorem ideal_never_panics (lvl : Level) (ty : Ty) (nul : Bool) (cur : Option TL) (d : DM) :
+    build Engine.ideal lvl ty nul cur d ≠ .panic :=
+  build_noPanic _ Engine.ideal_noPanicFlags lvl ty nul cur d
+
+/-- The two root builders never panic. -/
+theorem ofType_ofRepr_never_panic (ty : Ty) (d : DM) :
+    ofType Engine.ideal ty d ≠ .panic ∧ ofRepr Engine.ideal ty d ≠ .panic :=
+  ⟨ideal_never_panics .type ty false none d, ideal_never_panics .repr ty false none d⟩
+
+/-- **never_panics_without_panic_flags.**  More generally: an engine panics only through one of its
+    two panic quirks.  Whatever the other nine flags are, `build` never panics. -/
+theorem never_panics_without_panic_flags (e : Engine) (h1 : e.nullableUnionPanic = false)
+    (h2 : e.lpUnknownKeyPanic = false) (lvl : Level) (ty : Ty) (nul : Bool) (cur : Option TL) (d : DM) :
+    build e lvl ty nul cur d ≠ .panic :=
+  build_noPanic e ⟨h1, h2⟩ lvl ty nul cur d
+
+/-- The helper builders never panic either (any engine without the two panic flags): scalars
+    (kinded / stringprefix / stringjoin / enum dispatch), kinded dispatch on lists and maps, list
+    elements, typed-map entries, struct-as-map, tuple, listpairs, union-as-map. -/
+theorem helpers_never_panic (e : Engine) (h1 : e.nullableUnionPanic = false)
+    (h2 : e.lpUnknownKeyPanic = false) :
+    (∀ lvl nul d ty, buildScalar e lvl nul d ty ≠ .panic) ∧
+    (∀ nul k ty, resolveKinded e nul k ty ≠ .panic) ∧
+    (∀ lvl ety enul acc xs, buildList e lvl ety enul acc xs ≠ .panic) ∧
+    (∀ lvl vty vnul acc es, buildMap e lvl vty vnul acc es ≠ .panic) ∧
+    (∀ lvl fs st es, buildStruct e lvl fs st es ≠ .panic) ∧
+    (∀ fs st i xs, buildTuple e fs st i xs ≠ .panic) ∧
+    (∀ fs st xs, buildPairs e fs st xs ≠ .panic) ∧
+    (∀ lvl ms cur n es, buildUnion e lvl ms cur n es ≠ .panic) :=
+  ⟨fun lvl nul d ty => buildScalar_noPanic e ⟨h1, h2⟩ lvl nul d ty,
+   fun nul k ty => resolveKinded_noPanic e ⟨h1, h2⟩ nul k ty,
+   fun lvl ety enul acc xs => buildList_noPanic e ⟨h1, h2⟩ lvl ety enul acc xs,
+   fun lvl vty vnul acc es => buildMap_noPanic e ⟨h1, h2⟩ lvl vty vnul acc es,
+   fun lvl fs st es => buildStruct_noPanic e ⟨h1, h2⟩ lvl fs st es,
+   fun fs st i xs => buildTuple_noPanic e ⟨h1, h2⟩ fs st i xs,
+   fun fs st xs => buildPairs_noPanic e ⟨h1, h2⟩ fs st xs,
+   fun lvl ms cur n es => buildUnion_noPanic e ⟨h1, h2⟩ lvl ms cur n es⟩
+
+/-! ## C09-4 — no silently non-conforming node -/
+
+/-- **built_conforms.**  Whatever the ideal builder of a well-formed type builds — at type level or at
+    representation level, in a nullable slot or not — conforms to the type. -/
+theorem built_conforms (lvl : Level) (ty : Ty) (nul : Bool) (d : DM) (v : TL) (hwf : ty.wf = true)
+    (h : build Engine.ideal lvl ty nul none d = .ok v) : conforms ty nul v = true :=
+  build_conforms lvl d ty nul hwf v h
+
+/-- **built_conforms** for the root type-level builder. -/
+theorem ofType_built_conforms (ty : Ty) (d : DM) (v : TL) (hwf : ty.wf = true)
+    (h : ofType Engine.ideal ty d = .ok v) : conforms ty false v = true :=
+  build_conforms .type d ty false hwf v h
+
+/-- **built_conforms** for the root representation-level builder. -/
+theorem ofRepr_built_conforms (ty : Ty) (d : DM) (v : TL) (hwf : ty.wf = true)
+    (h : ofRepr Engine.ideal ty d = .ok v) : conforms ty false v = true :=
+  build_conforms .repr d ty false hwf v h
+
+/-! ## C09-2 — the type-level builder accepts exactly the conforming trees -/
+
+/-- **ofType_eq.**  The complete behaviour of the ideal type-level builder of a well-formed type: a
+    conforming tree is accepted and the node built is the normalised input; everything else is
+    rejected (an error — not a panic, not a node). -/
+theorem ofType_eq (ty : Ty) (nul : Bool) (d : DM) (hwf : ty.wf = true) :
+    build Engine.ideal .type ty nul none d =
+      if conforms ty nul (TL.ofDM d) = true then .ok (normalize ty (TL.ofDM d)) else .reject :=
+  build_type d ty nul hwf
+
+/-- **ofType_accepts_iff_conforms.** -/
+theorem ofType_accepts_iff_conforms (ty : Ty) (d : DM) (hwf : ty.wf = true) :
+    (ofType Engine.ideal ty d).isOk = true ↔ conforms ty false (TL.ofDM d) = true := by
+  unfold ofType
+  rw [build_type d ty false hwf]
+  split <;> simp_all
+
+/-- On acceptance the node built is the normalised input. -/
+theorem ofType_value (ty : Ty) (d : DM) (v : TL) (hwf : ty.wf = true)
+    (h : ofType Engine.ideal ty d = .ok v) : v = normalize ty (TL.ofDM d) := by
+  unfold ofType at h
+  rw [build_type d ty false hwf] at h
+  split at h
+  · exact (Outcome.ok.inj h).symm
+  · cases h
+
+/-- A non-conforming tree is reported by an error. -/
+theorem ofType_rejects (ty : Ty) (d : DM) (hwf : ty.wf = true)
+    (h : conforms ty false (TL.ofDM d) = false) : ofType Engine.ideal ty d = .reject := by
+  unfold ofType
+  rw [build_type d ty false hwf]
+  simp [h]
+
+/-- Consequence of C09-2 and C09-4: normalising a conforming (absent-free) tree keeps it conforming. -/
+theorem normalize_conforms_ofDM (ty : Ty) (d : DM) (hwf : ty.wf = true)
+    (h : conforms ty false (TL.ofDM d) = true) : conforms ty false (normalize ty (TL.ofDM d)) = true := by
+  apply build_conforms .type d ty false hwf
+  rw [build_type d ty false hwf]
+  simp [h]
+
+/-! ## C09-3 — the representation-level builder accepts exactly the conforming trees -/
+
+/-- **ofRepr_isOk_eq.**  In any slot. -/
+theorem ofRepr_isOk_eq (ty : Ty) (nul : Bool) (d : DM) (hwf : ty.wf = true) :
+    (build Engine.ideal .repr ty nul none d).isOk = conformsRepr ty nul d :=
+  build_repr_isOk d ty nul hwf
+
+/-- **ofRepr_accepts_iff_conformsRepr.** -/
+theorem ofRepr_accepts_iff_conformsRepr (ty : Ty) (d : DM) (hwf : ty.wf = true) :
+    (ofRepr Engine.ideal ty d).isOk = true ↔ conformsRepr ty false d = true := by
+  unfold ofRepr
+  rw [build_repr_isOk d ty false hwf]
+
+/-- A tree that does not conform at representation level is reported by an error. -/
+theorem ofRepr_rejects (ty : Ty) (d : DM) (hwf : ty.wf = true)
+    (h : conformsRepr ty false d = false) : ofRepr Engine.ideal ty d = .reject := by
+  have h1 := build_repr_isOk d ty false hwf
+  have h2 := ideal_never_panics .repr ty false none d
+  unfold ofRepr
+  rw [h] at h1
+  cases hb : build Engine.ideal .repr ty false none d with
+  | ok v => rw [hb] at h1; cases h1
+  | reject => rfl
+  | panic => exact absurd hb h2
+
+/-- A tree that conforms at representation level is accepted, and the node built conforms. -/
+theorem ofRepr_accepts (ty : Ty) (d : DM) (hwf : ty.wf = true)
+    (h : conformsRepr ty false d = true) :
+    ∃ v, ofRepr Engine.ideal ty d = .ok v ∧ conforms ty false v = true := by
+  have h1 := (ofRepr_accepts_iff_conformsRepr ty d hwf).2 h
+  obtain ⟨v, hv⟩ := Outcome.isOk_iff.1 h1
+  exact ⟨v, hv, ofRepr_built_conforms ty d v hwf hv⟩
+
+/-- The normal form of ANY conforming typed value (with or without explicit `absent` entries)
+    conforms. -/
+theorem normalize_conforms (ty : Ty) (nul : Bool) (v : TL) (hwf : ty.wf = true)
+    (h : conforms ty nul v = true) : conforms ty nul (normalize ty v) = true :=
+  conforms_normalize v ty nul hwf h
+
+/-! ## C09-5 — quirk accounting: the flags only matter on inputs the ideal engine rejects -/
+
+/-- **accepted_by_every_engine.**  An input the ideal builder accepts (either level, any type — no
+    well-formedness needed) is accepted, with the same node, by the builder of EVERY engine that does
+    not have the `nullableUnionPanic` quirk — whatever its other ten flags are. -/
+theorem accepted_by_every_engine (e : Engine) (hn : e.nullableUnionPanic = false) (lvl : Level)
+    (ty : Ty) (nul : Bool) (d : DM) (v : TL) (h : build Engine.ideal lvl ty nul none d = .ok v) :
+    build e lvl ty nul none d = .ok v :=
+  build_mono e hn lvl d ty nul v h
+
+/-- **quirks_only_on_rejects.**  Equivalently: wherever such an engine's outcome differs from the ideal
+    one, the ideal outcome is `reject` — a flag only ever turns an ideal error into something else
+    (a node, or — `lpUnknownKeyPanic` — a panic). -/
+theorem quirks_only_on_rejects (e : Engine) (hn : e.nullableUnionPanic = false) (lvl : Level)
+    (ty : Ty) (nul : Bool) (d : DM)
+    (h : build e lvl ty nul none d ≠ build Engine.ideal lvl ty nul none d) :
+    build Engine.ideal lvl ty nul none d = .reject := by
+  cases hi : build Engine.ideal lvl ty nul none d with
+  | ok v => exact absurd (by rw [build_mono e hn lvl d ty nul v hi, hi]) h
+  | reject => rfl
+  | panic => exact absurd hi (ideal_never_panics lvl ty nul none d)
+
+/-- Any engine with that one quirk switched off (e.g. `{ Engine.bindnode with nullableUnionPanic := false }`,
+    whatever `Engine.bindnode` is). -/
+example (e : Engine) (lvl : Level) (ty : Ty) (d : DM) (v : TL)
+    (h : build Engine.ideal lvl ty false none d = .ok v) :
+    build { e with nullableUnionPanic := false } lvl ty false none d = .ok v :=
+  build_mono _ rfl lvl d ty false v h
+
+/-- `struct { u nullable union { | String string } representation kinded }` -/
+def exNullableKinded : Ty :=
+  .struct (.cons [117] [117] false true (.union (.cons [83] [] .str .str .nil) .kinded) .nil) .map
+
+/-- **nullableUnionPanic_is_the_exception.**  `nullableUnionPanic` is the one flag that breaks an input
+    the ideal engine accepts: `{"u": "x"}` conforms and is accepted; with the flag alone, the
+    representation builder panics. -/
+theorem nullableUnionPanic_is_the_exception :
+    exNullableKinded.wf = true ∧
+    ofRepr Engine.ideal exNullableKinded (.map (.cons [117] (.str [120]) .nil))
+      = .ok (.map (.cons [117] (.map (.cons [83] (.str [120]) .nil)) .nil)) ∧
+    ofRepr { nullableUnionPanic := true } exNullableKinded (.map (.cons [117] (.str [120]) .nil))
+      = .panic := by decide
+
+/-! ## Examples: the hypotheses are satisfiable, and needed -/
+
+/-- `struct { a Int (rename "x"); b optional nullable [String] } representation map` -/
+def exStruct : Ty :=
+  .struct (.cons [97] [120] false false .int (.cons [98] [98] true true (.list .str false) .nil)) .map
+
+/-- `union { | exStruct map | String string } representation kinded`, members named "S" and "T". -/
+def exUnion : Ty :=
+  .union (.cons [83] [] .map exStruct (.cons [84] [] .str .str .nil)) .kinded
+
+example : exUnion.wf = true := by decide
+
+/-- type level: `{"b": null, "a": 1}` conforms and is accepted, normalised to declaration order -/
+example :
+    ofType Engine.ideal exStruct (.map (.cons [98] .null (.cons [97] (.int 1) .nil)))
+      = .ok (.map (.cons [97] (.int 1) (.cons [98] .null .nil))) := by decide
+
+/-- type level: an unset optional field shows as `absent` -/
+example :
+    ofType Engine.ideal exStruct (.map (.cons [97] (.int 1) .nil))
+      = .ok (.map (.cons [97] (.int 1) (.cons [98] .absent .nil))) := by decide
+
+/-- type level: missing required field, unknown field, repeated field, wrong kind, null where not
+    nullable: all rejected -/
+example : ofType Engine.ideal exStruct (.map (.cons [98] .null .nil)) = .reject := by decide
+example : ofType Engine.ideal exStruct (.map (.cons [97] (.int 1) (.cons [99] .null .nil))) = .reject := by decide
+example : ofType Engine.ideal exStruct (.map (.cons [97] (.int 1) (.cons [97] (.int 1) .nil))) = .reject := by decide
+example : ofType Engine.ideal exStruct (.map (.cons [97] (.str []) .nil)) = .reject := by decide
+example : ofType Engine.ideal exStruct (.map (.cons [97] .null .nil)) = .reject := by decide
+
+/-- representation level: the renamed key is `x`; through the kinded union -/
+example :
+    ofRepr Engine.ideal exUnion (.map (.cons [120] (.int 1) .nil))
+      = .ok (.map (.cons [83] (.map (.cons [97] (.int 1) (.cons [98] .absent .nil))) .nil)) := by decide
+example : conformsRepr exUnion false (.map (.cons [120] (.int 1) .nil)) = true := by decide
+/-- ... and the original name is not a key of the representation -/
+example : ofRepr Engine.ideal exUnion (.map (.cons [97] (.int 1) .nil)) = .reject := by decide
+/-- a kind the union does not list -/
+example : ofRepr Engine.ideal exUnion (.int 1) = .reject := by decide
+
+/-- `struct { a Int; a Int }` (not well-formed: a repeated field name). -/
+def exDupStruct : Ty :=
+  .struct (.cons [97] [97] false false .int (.cons [97] [98] false false .int .nil)) .map
+
+/-- **wf_needed_ofType.**  Without `Ty.wf` acceptance and conformance differ: with a repeated field
+    name the tree `{"a": 1}` conforms (`a` is known, not repeated, an int, and every required name was
+    seen) but no tree can ever set the second field, so the builder rejects. -/
+theorem wf_needed_ofType :
+    exDupStruct.wf = false ∧
+    conforms exDupStruct false (TL.ofDM (.map (.cons [97] (.int 1) .nil))) = true ∧
+    ofType Engine.ideal exDupStruct (.map (.cons [97] (.int 1) .nil)) = .reject := by decide
+
+/-- `struct { a Int (rename "x"); b Int (rename "x") }` (not well-formed: a repeated representation key). -/
+def exDupRename : Ty :=
+  .struct (.cons [97] [120] false false .int (.cons [98] [120] false false .int .nil)) .map
+
+/-- **wf_needed_ofRepr.**  The same at representation level with a repeated representation key. -/
+theorem wf_needed_ofRepr :
+    exDupRename.wf = false ∧
+    conformsRepr exDupRename false (.map (.cons [120] (.int 1) .nil)) = true ∧
+    ofRepr Engine.ideal exDupRename (.map (.cons [120] (.int 1) .nil)) = .reject := by decide
+
+/-- **wf_needed_built_conforms.**  ... and what an ill-formed type's builder builds need not conform:
+    `struct { a Int; a optional Int }` builds `{a: 1, a: absent}`, which repeats a key. -/
+theorem wf_needed_built_conforms :
+    let ty : Ty := .struct (.cons [97] [97] false false .int (.cons [97] [98] true false .int .nil)) .map
+    ty.wf = false ∧
+    ofType Engine.ideal ty (.map (.cons [97] (.int 1) .nil))
+      = .ok (.map (.cons [97] (.int 1) (.cons [97] .absent .nil))) ∧
+    conforms ty false (.map (.cons [97] (.int 1) (.cons [97] .absent .nil))) = false := by decide
 
 end Ipld.Props.C09
